@@ -117,11 +117,11 @@ func (o *observer) record(name string, st status.Status, justified bool, bad str
 }
 
 type session struct {
-	name   string
-	rpc    bool
-	auto   bool
-	opts   func() mpx.Options
-	run    func(e *c09env, cl any, o *observer)
+	name string
+	rpc  bool
+	auto bool
+	opts func() mpx.Options
+	run  func(e *c09env, cl any, o *observer)
 }
 
 func defaultOpts() mpx.Options {
@@ -269,12 +269,13 @@ var c09sessions = []session{
 }
 
 type c09case struct {
-	Session string  `json:"session"`
-	Dir     string  `json:"direction"`
-	Offset  int     `json:"cut_after_bytes"`
-	Kind    string  `json:"fault"`
-	Ops     []op    `json:"calls"`
-	Failure string  `json:"failure,omitempty"`
+	Session string    `json:"session"`
+	Dir     string    `json:"direction"`
+	Offset  int       `json:"cut_after_bytes"`
+	Kind    string    `json:"fault"`
+	Ops     []op      `json:"calls"`
+	Failure string    `json:"failure,omitempty"`
+	Sched   schedPlan `json:"schedule_perturbation"`
 }
 
 var cutKinds = []struct {
@@ -539,7 +540,18 @@ func TestC09_FaultEnumeration(t *testing.T) {
 		s := c09sessions[j.s]
 		plan := netfx.Plan{Kind: cutKinds[j.kind].k, Dir: j.dir, After: j.off, StallFor: 40 * time.Millisecond}
 		kase := &c09case{Session: s.name, Dir: []string{"client->server", "server->client"}[j.dir], Offset: j.off, Kind: cutKinds[j.kind].name}
+		// two of three fault runs also carry a perturbation plan derived from the job number
+		// (seeded yields at the library's schedule points: the connection can for instance die
+		// between the start of its goroutine and its registration with the client)
+		if i%3 != 0 {
+			kase.Sched = schedPlan{Seed: mix64(uint64(i)), Level: 1 + (i/3)%2, Points: 0xffffffff}
+			if (i/6)%2 == 1 {
+				kase.Sched.Points = 1 << uint(1+(i/12)%16)
+			}
+		}
+		remove := kase.Sched.install()
 		f, faulted := e.runFaulted(s, plan, kase)
+		remove()
 		if f.key != "" {
 			kase.Failure = f.msg
 			ev.Violation(t, c09, f.key, kase, "%s cut %s after %d bytes (%s): %s", s.name, kase.Dir, j.off, kase.Kind, f.msg)
